@@ -152,7 +152,11 @@ func (v *Value) Integer() int {
 	case reflect.Int, reflect.Int8, reflect.Int16, reflect.Int32, reflect.Int64:
 		return int(v.getResolvedValue().Int())
 	case reflect.Uint, reflect.Uint8, reflect.Uint16, reflect.Uint32, reflect.Uint64:
-		return int(v.getResolvedValue().Uint())
+		// (an unsigned number no int can hold saturates, it does not turn negative)
+		if u := v.getResolvedValue().Uint(); u <= math.MaxInt {
+			return int(u)
+		}
+		return math.MaxInt
 	case reflect.Float32, reflect.Float64:
 		return floatToInt(v.getResolvedValue().Float())
 	case reflect.String:
